@@ -1,5 +1,6 @@
 """Virtual `queue` module: same API, blocking get/put block virtually."""
 import collections
+import heapq
 import queue as _rq
 
 from vmc import sched
@@ -9,12 +10,32 @@ Empty = _rq.Empty
 Full = _rq.Full
 
 
+def _no_attr(name):
+  """A method the real class does not have (conformance: vmc.shimconf)."""
+  def get(self):
+    raise AttributeError(
+        f"'{type(self).__name__}' object has no attribute '{name}'")
+  return property(get)
+
+
 class Queue:
 
   def __init__(self, maxsize=0):
     self.maxsize = maxsize
-    self._d = collections.deque()
+    self._init()
+    self.unfinished_tasks = 0
     self.name = vthreading._name('Q')
+
+  # storage discipline (FIFO here; see LifoQueue / PriorityQueue)
+  def _init(self):
+    self._d = collections.deque()
+
+  def _put(self, item):
+    self._d.append(item)
+    self.unfinished_tasks += 1
+
+  def _get(self):
+    return self._d.popleft()
 
   def qsize(self):
     return len(self._d)
@@ -32,9 +53,9 @@ class Queue:
     s = sched._current
     if s is not None and not s.aborting:
       s.point('q-put_nowait', self.name)
-    if self.full():
+    if self._full():
       raise Full
-    self._d.append(item)
+    self._put(item)
 
   def get_nowait(self):
     s = sched._current
@@ -42,47 +63,75 @@ class Queue:
       s.point('q-get_nowait', self.name)
     if not self._d:
       raise Empty
-    return self._d.popleft()
+    return self._get()
 
   def put(self, item, block=True, timeout=None):
     s = sched._current
     if s is not None:
       s.point('q-put', self.name)
-    while self.full():
+    if self.maxsize > 0 and block and timeout is not None and timeout < 0:
+      raise ValueError("'timeout' must be a non-negative number")
+    while self._full():
       if not block or s is None:
         raise Full
       deadline = None if timeout is None else s.clock + timeout
-      if not s.block(lambda: not self.full(), deadline, 'q-put-wait', self.name):
+      if not s.block(lambda: not self._full(), deadline, 'q-put-wait', self.name):
         raise Full
-    self._d.append(item)
+    self._put(item)
 
   def get(self, block=True, timeout=None):
     s = sched._current
     if s is not None:
       s.point('q-get', self.name)
+    if block and timeout is not None and timeout < 0:
+      raise ValueError("'timeout' must be a non-negative number")
     while not self._d:
       if not block or s is None:
         raise Empty
       deadline = None if timeout is None else s.clock + timeout
       if not s.block(lambda: bool(self._d), deadline, 'q-get-wait', self.name):
         raise Empty
-    return self._d.popleft()
+    return self._get()
 
   def _full(self):
     return 0 < self.maxsize <= len(self._d)
 
   def task_done(self):
-    pass
+    if self.unfinished_tasks <= 0:
+      raise ValueError('task_done() called too many times')
+    self.unfinished_tasks -= 1
 
   def snapshot(self):
     return tuple(self._d)
 
 
 class SimpleQueue(Queue):
+  """Unbounded; put() ignores block/timeout; no full / task_done / join."""
 
   def __init__(self):
     super().__init__(0)
 
+  full = _no_attr('full')
+  task_done = _no_attr('task_done')
 
-LifoQueue = Queue
-PriorityQueue = Queue
+
+class LifoQueue(Queue):
+
+  def _init(self):
+    self._d = []
+
+  def _get(self):
+    return self._d.pop()
+
+
+class PriorityQueue(Queue):
+
+  def _init(self):
+    self._d = []
+
+  def _put(self, item):
+    heapq.heappush(self._d, item)
+    self.unfinished_tasks += 1
+
+  def _get(self):
+    return heapq.heappop(self._d)
